@@ -285,6 +285,7 @@ package mail
 //@   requires[C02:files] mw != nil && (forall i :: 0 <= i && i < len(files) ==> filesafeX(files[i]))
 //@   loop 1 invariant[C02:files] forall i :: 0 <= i && i < len(files) ==> filesafeX(files[i])
 //@   loop 2 invariant[C02:files] (forall i :: 0 <= i && i < len(files) ==> filesafeX(files[i])) && !file.Header.hdrtaint && !file.Header.cidtaint
+//@   loop 3 invariant[C02:files] (forall i :: 0 <= i && i < len(files) ==> filesafeX(files[i])) && !file.Header.hdrtaint && !file.Header.cidtaint
 //@ func mail.msgWriter.writePart (part, charset)
 //@   requires[C02:typed] mw != nil && part != nil && nocrlf(part.contentType) && nocrlf(part.charset) && nocrlf(part.encoding) && nocrlf(charset)
 //@ func mail.Encoding.String
@@ -356,6 +357,7 @@ package mail
 //@   ensures[C12:sticky] sticky(mw)
 //@   loop 1 invariant[C12:inv] mwinv(mw) && mw.depth == old(mw.depth) && sticky(mw) && (forall i :: 0 <= i && i < len(files) ==> files[i] != nil && files[i].Header != nil && files[i].Writer != nil)
 //@   loop 2 invariant[C12:inv] mwinv(mw) && mw.depth == old(mw.depth) && sticky(mw) && (forall i :: 0 <= i && i < len(files) ==> files[i] != nil && files[i].Header != nil && files[i].Writer != nil)
+//@   loop 3 invariant[C12:inv] mwinv(mw) && mw.depth == old(mw.depth) && sticky(mw) && (forall i :: 0 <= i && i < len(files) ==> files[i] != nil && files[i].Header != nil && files[i].Writer != nil)
 //@ func mail.Msg.hasMixed
 //@   ensures[C12:pgp-excludes] result ==> m.pgptype == 0
 //@ func mail.Msg.hasRelated
@@ -374,7 +376,7 @@ package mail
 //@   requires[C12:inv] mw != nil && mw.writer != nil && msg != nil
 //@   ensures[C12:sticky] sticky(mw)
 //@   ensures[C12:frame] mw.depth == old(mw.depth) && mw.writer == old(mw.writer)
-//@   loop 1 invariant[C12:inv] sticky(mw) && mw.depth == old(mw.depth) && mw.writer == old(mw.writer)
+//@   loop 2 invariant[C12:inv] sticky(mw) && mw.depth == old(mw.depth) && mw.writer == old(mw.writer)
 //@ func mail.msgWriter.writeMsg (msg)
 //@   requires[C12:inv] mwinv(mw) && mw.depth == 0 && msgok(msg)
 //@   ensures[C12:sticky] sticky(mw)
@@ -442,7 +444,7 @@ package mail
 //@   requires[C08:wf] mw != nil && msg != nil
 //@   ensures[C08:lines-written] mw.err == nil ==> msg.headerCount - old(msg.headerCount) == mw.crlfcount - old(mw.crlfcount)
 //@   ensures[C08:err-sticky] old(mw.err) != nil ==> mw.err != nil
-//@   loop 1 invariant[C08:lines-written] (old(mw.err) != nil ==> mw.err != nil) && (mw.err == nil ==> msg.headerCount - old(msg.headerCount) == mw.crlfcount - old(mw.crlfcount))
+//@   loop 2 invariant[C08:lines-written] (old(mw.err) != nil ==> mw.err != nil) && (mw.err == nil ==> msg.headerCount - old(msg.headerCount) == mw.crlfcount - old(mw.crlfcount))
 //@ func mail.Msg.WriteTo (writer) (n, err)
 //@   requires[C08:wf] m != nil
 //@   ensures[C08:count-reset] m.headerCount == 0
